@@ -1595,7 +1595,7 @@ def gen_C08(rng, tier):
 import random  # noqa: E402
 
 PROPS.update({
-    "C08": dict(gen=gen_C08, configs=["dev", "rel", "dev-nb", "rel-nb"], judge=judge_mbi_full, check_model_ub=True,
+    "C08": dict(gen=gen_C08, configs=["dev", "rel", "dev-nb", "rel-nb"], judge=judge_skip_ok, check_model_ub=True,
                 level_note="trusted: Coq kernel; no axioms. The profile dimension is a theorem about the model (Dev = Release for every "
                            "profile-taking function on its domain); the feature dimension (builder/alloc on or off) cannot be a theorem - "
                            "cargo features are not modelled - and is decided by the four-configuration differential run alone; what rustc makes of "
